@@ -224,6 +224,9 @@ def run(prop, tier, seed, replay=None):
                 c.known_seen.append(hit)
             else:
                 c.violation(r, v[key], extra={'verdict': v, 'plain': chars.dec(r['plain']), 'text': chars.dec(r['src'])})
+    if prop in ('C05', 'C02') and not replay:
+        from checks import lines
+        lines.phase(c, tier, 'text' if prop == 'C05' else 'positions', beh, OPTS)
     if prop == 'C18' and not replay:
         from checks import include18
         include18.phase(c, tier)
